@@ -133,14 +133,19 @@ META.update({
              'when nothing was written; with recovery off the panic value reaches the caller; after every request the compressor '
              'ledger is balanced and the stream closed, so any history of panicking and normal requests leaves the pool intact. '
              'PARTIAL: Go\'s defer/recover is modelled; follow-up requests, the instrumented provider ledger and decoded bodies are '
-             'compared with the model on generated histories. The recover handler must be called exactly as often as the model says (also after output was written), and the requests after a panic are compared with a fresh container.',
+             'compared with the model on generated histories. The recover handler must be called exactly as often as the model says (also after output was written), and the requests after a panic are compared with a fresh container. C10_following_requests (instance of C19_history): in any history with panicking requests in it every request is answered as alone on a fresh container. go-restful\'s own recover handler (no RecoverHandler call) and clients that are gone (every Write errors) are in the domain.',
         design_ref='DESIGN.md section 6, C10', note=NOTE_DISP, technique=TECH),
     'C19': dict(
-        text='Theorems Props.C19_pool_invariant and C19_events (Coq, no axioms): the model of serving takes configuration, request '
+        text='Theorem Props.C19_history (Coq, no axioms): for every configuration, every history of (entry point, request, headers at arrival), '
+             'every world it starts from (event log, acquire / release counters, recover-handler calls, all carried on from request to '
+             'request) and every position, the answer (panic value, status, headers, chunks, compressor contents, attributes, own events incl. '
+             'parameters and selected route seen by the handler) equals the answer alone on a fresh container; it rests on the frame law '
+             'C19_frame (serving commutes with shifting the world it starts from), proved function by function. '
+             'Theorems Props.C19_pool_invariant and C19_events: the model of serving takes configuration, request '
              'and a fresh recorder only; the one thing that outlives a request (the compressor pool) is left balanced by every '
              'request; the structural answer is the same from any starting state. PARTIAL: concurrency and long histories rest on '
              'the differential run (each request answered identically in a sequential history, alone on a fresh container and in a '
-             'concurrent batch, all equal to the model). Domains neg and route serve every request a second time with trace logging flipped and demand the same answer.',
+             'concurrent batch, all equal to the model). Domains neg and route serve every request a second time with trace logging flipped and demand the same answer. When implementation and model differ on a case and no predicate is false, the case is re-run alone and after a shrinking part of the cases served before it in the process: a history after which the answer differs is the failing input.',
         design_ref='DESIGN.md section 6, C19', note=NOTE_DISP, technique=TECH),
 })
 
@@ -175,7 +180,7 @@ META.update({
              'without it): a finished request\'s answer is SelectRoute\'s answer in the global registration state at its own '
              'routes-read step, both routers; C12_exclusion: no snapshot is held while a writer holds the lock. PARTIAL: that the '
              'code has this step structure is tied by the translated lock table (reads of webServices under RLock, writes under '
-             'Lock) and the stress classification; the translator, Go\'s memory model and sync.RWMutex are trusted.',
+             'Lock) and the stress classification; the translator, Go\'s memory model and sync.RWMutex are trusted. Domain disp: after every history (panicking If-conditions, filters and route functions, recovery on and off) Container.Add must return - a lock left held by a panic inside selection is seen only by running it.',
         design_ref='DESIGN.md section 6, C12',
         note='trusted: Coq kernel, translator cmd/xlate (fails closed), Go race detector, harness; lock semantics as written in Model.Conc',
         technique='Coq theorem over translated lock/access table (regenerated from source each run) + race-detector stress'),
